@@ -3,17 +3,18 @@
 
    Statement file.  A state is the whole observable graph (every field of every task, the WBS root lists), so
    "fst (step s o) = s" is the property text for the call o.
-   Summary: 21 kinds atomic on ALL states (C15_atomic: every setter validates before it writes; the three
-   operations that call several setters in a row - list-level << / >>, bulk parent assignment, the constructor
-   with relation arguments - undo the calls that returned when a later one raises); ALL 24 kinds atomic on
+   Summary: 23 kinds atomic on ALL states (C15_atomic: every setter validates before it writes; the five
+   operations that call several setters in a row - list-level << / >>, bulk assignment of parent / children /
+   predecessors / successors to a task list, the constructor with relation arguments - undo the calls that
+   returned when a later one raises); ALL 26 kinds atomic on
    well-formed states, hence on every state reached by a public history (C15_atomic_every_op, C15_atomic_reach:
-   the three remove_all loops never raise there).  The three sequences WITHOUT the undo - the code before the
+   the three remove_all loops never raise there).  The five sequences WITHOUT the undo - the code before the
    repair, finding F10 - are refuted (the C15_refuted theorems). *)
 From PJ Require Import Base.Prelude Graph.Model Graph.Invariant Graph.OracleProofs Graph.AtomicProofs Graph.AtomicLoops.
 From PJ Require Graph.StepProofs.
 Local Open Scope nat_scope.
 
-(* ---- proved for ALL states and arguments: 21 of the 24 operation kinds ---- *)
+(* ---- proved for ALL states and arguments: 23 of the 26 operation kinds ---- *)
 Theorem C15_atomic : forall s o, atomic_op o = true -> snd (step s o) <> OK -> fst (step s o) = s.
 Proof. exact AtomicProofs.C15_atomic. Qed.
 
@@ -35,6 +36,12 @@ Proof. exact AtomicProofs.all_or_nothing_cases. Qed.
 Theorem C15_lst_shift_is : forall d s ts vs, lst_shift d s ts vs = all_or_nothing s (lst_shift_seq d s ts vs).
 Proof. reflexivity. Qed.
 Theorem C15_lst_set_parent_is : forall s ts p, lst_set_parent s ts p = all_or_nothing s (lst_set_parent_seq s ts p).
+Proof. reflexivity. Qed.
+Theorem C15_lst_set_children_is : forall s ts vs,
+  lst_set_children s ts vs = all_or_nothing s (seq_calls (fun s' t => set_children s' t vs) s ts).
+Proof. reflexivity. Qed.
+Theorem C15_lst_set_links_is : forall d s ts vs,
+  lst_set_links d s ts vs = all_or_nothing s (seq_calls (fun s' t => set_links d s' t vs) s ts).
 Proof. reflexivity. Qed.
 Theorem C15_new_task_rel_is : forall s i nm p ch su pr,
   new_task_rel s i nm p ch su pr = all_or_nothing s (new_task_rel_seq s i nm p ch su pr).
@@ -72,6 +79,31 @@ Theorem C15_refuted_new_task_rel_detail :
   kids (get (hp (fst (step_seq wit_new_task_rel_pre wit_new_task_rel_op))) 0) = [1].
 Proof. exact AtomicProofs.C15_refuted_new_task_rel_detail. Qed.
 
+(* lst.children = value: the first element takes the tasks (one of them a member of the list), the member rejects
+   itself; lst.predecessors = value: the same with a dependency.  The last conjunct: with the undo nothing changed *)
+Theorem C15_refuted_lst_set_children : exists s o, snd (step_seq s o) <> OK /\ fst (step_seq s o) <> s.
+Proof. exact AtomicProofs.C15_refuted_lst_set_children. Qed.
+
+Theorem C15_refuted_lst_set_children_detail :
+  snd (step_seq wit_lst_set_children_pre wit_lst_set_children_op) = Err /\
+  kids (get (hp wit_lst_set_children_pre) 0) = [1; 2] /\
+  kids (get (hp (fst (step_seq wit_lst_set_children_pre wit_lst_set_children_op))) 0) = [1] /\
+  kids (get (hp (fst (step_seq wit_lst_set_children_pre wit_lst_set_children_op))) 1) = [3; 2] /\
+  par (get (hp (fst (step_seq wit_lst_set_children_pre wit_lst_set_children_op))) 2) = Some 1 /\
+  fst (step wit_lst_set_children_pre wit_lst_set_children_op) = wit_lst_set_children_pre.
+Proof. exact AtomicProofs.C15_refuted_lst_set_children_detail. Qed.
+
+Theorem C15_refuted_lst_set_links : exists s o, snd (step_seq s o) <> OK /\ fst (step_seq s o) <> s.
+Proof. exact AtomicProofs.C15_refuted_lst_set_links. Qed.
+
+Theorem C15_refuted_lst_set_links_detail :
+  snd (step_seq wit_lst_set_links_pre wit_lst_set_links_op) = Err /\
+  preds (get (hp wit_lst_set_links_pre) 1) = [] /\
+  preds (get (hp (fst (step_seq wit_lst_set_links_pre wit_lst_set_links_op))) 1) = [2] /\
+  succs (get (hp (fst (step_seq wit_lst_set_links_pre wit_lst_set_links_op))) 2) = [1] /\
+  fst (step wit_lst_set_links_pre wit_lst_set_links_op) = wit_lst_set_links_pre.
+Proof. exact AtomicProofs.C15_refuted_lst_set_links_detail. Qed.
+
 (* what did hold for the bare sequences: a raising call leaves the COMPLETE effect of the element calls
    that returned (every element call is atomic) *)
 Theorem C15_lst_shift_partial : forall d s ts vs,
@@ -85,6 +117,18 @@ Theorem C15_lst_set_parent_partial : forall s ts p,
   exists done t rest, ts = done ++ t :: rest /\
     snd (lst_set_parent_seq s done p) = OK /\ fst (lst_set_parent_seq s ts p) = fst (lst_set_parent_seq s done p).
 Proof. exact AtomicProofs.C15_lst_set_parent_partial. Qed.
+
+Theorem C15_lst_set_children_partial : forall s ts vs,
+  snd (lst_set_children_seq s ts vs) <> OK ->
+  exists done t rest, ts = done ++ t :: rest /\
+    snd (lst_set_children_seq s done vs) = OK /\ fst (lst_set_children_seq s ts vs) = fst (lst_set_children_seq s done vs).
+Proof. exact AtomicProofs.C15_lst_set_children_partial. Qed.
+
+Theorem C15_lst_set_links_partial : forall d s ts vs,
+  snd (lst_set_links_seq d s ts vs) <> OK ->
+  exists done t rest, ts = done ++ t :: rest /\
+    snd (lst_set_links_seq d s done vs) = OK /\ fst (lst_set_links_seq d s ts vs) = fst (lst_set_links_seq d s done vs).
+Proof. exact AtomicProofs.C15_lst_set_links_partial. Qed.
 
 (* ---- the remove_all loops: full statements, proved parts ---- *)
 Definition C15_ch_remove_all_statement : Prop := AtomicProofs.C15_ch_remove_all_statement.
@@ -178,7 +222,7 @@ Theorem C15_remove_all_never_raises : forall s, WF s ->
   (forall w ids, snd (wbs_remove_all s w ids) = OK).
 Proof. exact StepProofs.remove_all_never_raises_wf. Qed.
 
-(* ALL 24 kinds on well-formed states; with C01_reach: on every state reached by a public history *)
+(* ALL 26 kinds on well-formed states; with C01_reach: on every state reached by a public history *)
 Theorem C15_atomic_every_op : forall s o, WF s -> snd (step s o) <> OK -> fst (step s o) = s.
 Proof. exact StepProofs.C15_atomic_every_op. Qed.
 
@@ -234,12 +278,36 @@ Example C15_bulk_parent_atomic :
   outcome_code (snd r) = 1 /\ fst r = s /\ par (get (hp (fst (step_seq s (LstSetParent [1; 2] (Some 3))))) 1) = Some 3.
 Proof. vm_compute. repeat split; reflexivity. Qed.
 
+(* bulk children / predecessors / successors on a reachable state: a WBS (root 0) with root tasks 1, 2, free tasks
+   3, 4, task 3 depends on 4.  [1; 2].children = [3; 2]: task 1 takes both (3 gets the owner, 2 moves below 1), then
+   task 2 rejects itself - nothing is left of it, while the bare sequence leaves 1's new children behind.
+   [3; 4].predecessors = [1; 4]: accepted by 3, rejected by 4 (itself).  Accepted: [1; 2].children = [3] (task 3 ends
+   below the LAST element), [1; 2].successors = (3, None, 3). *)
+Example C15_bulk_children_links_atomic :
+  let s := run init [NewWbs; NewTask 1%Z None [] None; NewTask 2%Z None [] None; NewTask 3%Z None [] None;
+                     NewTask 4%Z None [] None; SetChildren 0 [Some 1; Some 2]; SetLinks true 3 [Some 4]] in
+  let o1 := LstSetChildren [1; 2] [Some 3; Some 2] in
+  let o2 := LstSetLinks true [3; 4] [Some 1; Some 4] in
+  let a1 := step s (LstSetChildren [1; 2] [Some 3]) in
+  let a2 := step s (LstSetLinks false [1; 2] [Some 3; None; Some 3]) in
+  wf_b s = true /\ pub_args s o1 = true /\ pub_args s o2 = true /\ atomic_op o1 = true /\ atomic_op o2 = true /\
+  outcome_code (snd (step s o1)) = 1 /\ fst (step s o1) = s /\
+  kids (get (hp (fst (step_seq s o1))) 1) = [3; 2] /\ own (get (hp (fst (step_seq s o1))) 3) = Some 0 /\
+  outcome_code (snd (step s o2)) = 1 /\ fst (step s o2) = s /\
+  preds (get (hp (fst (step_seq s o2))) 3) = [1; 4] /\
+  outcome_code (snd a1) = 0 /\ kids (get (hp (fst a1)) 1) = [] /\ kids (get (hp (fst a1)) 2) = [3] /\
+  outcome_code (snd a2) = 0 /\ succs (get (hp (fst a2)) 1) = [3] /\ succs (get (hp (fst a2)) 2) = [3] /\
+  preds (get (hp (fst a2)) 3) = [4; 1; 2].
+Proof. vm_compute. repeat split; reflexivity. Qed.
+
 Print Assumptions C15_atomic.
 Print Assumptions C15_atomic_core.
 Print Assumptions C15_atomic_op_false_kinds.
 Print Assumptions C15_all_or_nothing.
 Print Assumptions C15_lst_shift_is.
 Print Assumptions C15_lst_set_parent_is.
+Print Assumptions C15_lst_set_children_is.
+Print Assumptions C15_lst_set_links_is.
 Print Assumptions C15_new_task_rel_is.
 Print Assumptions C15_refuted_lst_shift.
 Print Assumptions C15_refuted_lst_shift_detail.
@@ -247,6 +315,12 @@ Print Assumptions C15_refuted_lst_set_parent.
 Print Assumptions C15_refuted_lst_set_parent_detail.
 Print Assumptions C15_refuted_new_task_rel.
 Print Assumptions C15_refuted_new_task_rel_detail.
+Print Assumptions C15_refuted_lst_set_children.
+Print Assumptions C15_refuted_lst_set_children_detail.
+Print Assumptions C15_refuted_lst_set_links.
+Print Assumptions C15_refuted_lst_set_links_detail.
+Print Assumptions C15_lst_set_children_partial.
+Print Assumptions C15_lst_set_links_partial.
 Print Assumptions C15_lst_shift_partial.
 Print Assumptions C15_lst_set_parent_partial.
 Print Assumptions C15_ch_remove_all_partial.
@@ -272,3 +346,4 @@ Print Assumptions c15_demo_rejected.
 Print Assumptions c15_demo_loops_accepted.
 Print Assumptions c15_loop_can_raise.
 Print Assumptions C15_bulk_parent_atomic.
+Print Assumptions C15_bulk_children_links_atomic.
